@@ -861,9 +861,10 @@ def write_cache_entry(
             entry.dev & 0xFFFFFFFF,
             entry.ino & 0xFFFFFFFF,
             entry.mode,
-            entry.uid,
-            entry.gid,
-            entry.size,
+            entry.uid & 0xFFFFFFFF,
+            entry.gid & 0xFFFFFFFF,
+            # The on-disk size field is 32 bits wide (truncated, as in git)
+            entry.size & 0xFFFFFFFF,
             hex_to_sha(entry.sha),
             flags,
         )
